@@ -13,13 +13,14 @@
 //!   `boot <init>`            power loss + restart: `Icd::new(CheckInCounter::new(init, epoch))`,
 //!                            `register`, `load_counter`. out: `<next counter>`
 //!   `persist`                `persist_counter`. out: `<stored>`
-//!   `checkin`                `send_check_in`. out: `<counter on the wire> <stored|->`
+//!   `checkin`                `send_check_in`. out: `<counter on the wire> <stored (joined by +)|-> ok|err:<Code>`
 //!   `checkincrash b|a <init>` `send_check_in` with a power loss right before / after the store of
 //!                            `advance_counter` (if it stores nothing it completes, then the power loss);
 //!                            then restart as `boot <init>`. out: `<counter> <stored|-> died|done <next>`
 //!   `jump <d>`               `invalidate_counter(d)`. out: `y|-`
-//!   `checkinfail`            `send_check_in` whose store FAILS (error, no power loss); outside C12's
-//!                            quantifier (oracle off). out: `<counter> - ok|err:<Code>`
+//!   `checkinfail <n>`        `send_check_in` during which the first `n` stores succeed and every later
+//!                            one FAILS (error, no power loss). The oracle stays on. out: as `checkin`
+//!                            (`wire:0:` when nothing was sent)
 use core::net::{IpAddr, Ipv6Addr};
 use core::num::NonZeroU8;
 use core::pin::pin;
@@ -196,7 +197,7 @@ pub(super) fn run_c(out: &mut Out, case: &Case, words: &[&str]) {
             let mut kv = kvc.borrow_mut();
             kv.die_after_store = false;
             kv.die_before_store = false;
-            kv.fail_store = false;
+            kv.fail_after = None;
             kv.log.clear();
         }
         let matter = Box::new(Matter::new(&TEST_DEV_DET, TEST_DEV_COMM, &TEST_DEV_ATT, 0));
@@ -237,28 +238,23 @@ pub(super) fn run_c(out: &mut Out, case: &Case, words: &[&str]) {
                     n_store += 1;
                     drain_icd_stores(&kvc)
                 }
-                "checkin" => {
+                // out: `<counter | wire:<n>:<list>> <stores joined by + | -> <ok | err:Code | ...>`
+                "checkin" | "checkinfail" => {
+                    // `checkinfail <n>`: the first `n` stores of this call succeed, every later one FAILS
+                    // (an error, no power loss)
+                    let failing = w[0] == "checkinfail";
+                    if failing {
+                        kvc.borrow_mut().fail_after = Some(num(1));
+                    }
                     let (all, how) = do_checkin(&mut runner, &net, &matter, &icd, &subs, &sock, &kvc, &crypto, peer);
+                    kvc.borrow_mut().fail_after = None;
                     let stored = drain_icd_stores(&kvc);
                     if stored != "-" {
                         n_store += 1;
                     }
-                    out.stat(&format!("c_checkin_{}", how.replace(':', "_")), 1);
-                    if how == "ok" && all.len() == 1 {
-                        n_use += 1;
-                        format!("{} {}", all[0], stored)
-                    } else {
-                        format!("wire:{}:{} {} {}", all.len(), all.join(","), stored, how)
-                    }
-                }
-                // the store of `advance_counter` FAILS (no power loss): outside C12's quantifier, the
-                // driver switches its oracle off; only serves the documented observation replay
-                "checkinfail" => {
-                    kvc.borrow_mut().fail_store = true;
-                    let (all, how) = do_checkin(&mut runner, &net, &matter, &icd, &subs, &sock, &kvc, &crypto, peer);
-                    kvc.borrow_mut().fail_store = false;
-                    let stored = drain_icd_stores(&kvc);
+                    out.stat(&format!("c_{}_{}", w[0], how.replace(':', "_")), 1);
                     if all.len() == 1 {
+                        n_use += 1;
                         format!("{} {} {}", all[0], stored, how)
                     } else {
                         format!("wire:{}:{} {} {}", all.len(), all.join(","), stored, how)
